@@ -17,7 +17,8 @@ SPEC = {
             "a definition's domain (exactly collinear or opposite sites of an angle, an atom on the polar axis, a pair exactly at "
             "the cutoff for every coordination-type component and exponent choice, coordinates equal to the reference for the "
             "orientation-type components and rmsd) x {value alone, with a harmonic restraint}: the value must be the limit of the "
-            "documented formula (never NaN) and the restraint energy finite",
+            "documented formula (never NaN) and the restraint energy finite; pair lists: 4 variants under rigid translation over 9 steps, and 4 variants "
+            "defined at step 0..4 of a run x fresh arrays filled with 0 or 1 (the harness owns operator new[]): same value as when defined at the start",
     "assumptions": [
         "finite alphabet of reals: 3 generic 12-atom geometries, 3 mass/charge tables, 2 orthorhombic cells, fixed reference-position tables; nothing is claimed outside it",
         "conventions the manual leaves open are taken as: orientation = least-squares rotation from reference to current coordinates; dipole measured from the "
